@@ -36,12 +36,24 @@ type setupSpec struct {
 	FC                map[int]uint64 // id -> count
 	CC                uint64
 	Epoch             bool
+	QueryRF           string // replication factor in force when the node served queries before the block ("" = same)
+}
+
+func (w *world) setRF(ctx sdk.Context, rf string) {
+	params, err := w.h.App.DaKeeper.Params.Get(ctx)
+	if err != nil {
+		panic(err)
+	}
+	params.ReplicationFactor = rf
+	if err := w.h.App.DaKeeper.Params.Set(ctx, params); err != nil {
+		panic(err)
+	}
 }
 
 func (s setupSpec) info() map[string]any {
 	return map[string]any{"replication_factor": s.RF, "slash_fault_threshold": s.SFT, "slash_fraction": s.Fraction,
 		"jail": s.Jail, "apply_validator_updates": s.ApplyValUpdates, "max_validators": s.MaxVals, "fault_counters": fmt.Sprint(s.FC),
-		"challenge_counter": s.CC, "epoch_block": s.Epoch}
+		"challenge_counter": s.CC, "epoch_block": s.Epoch, "replication_factor_at_query_time": s.QueryRF}
 }
 
 // applySetup prepares params, validator set and counters on ctx (a cache context).
@@ -177,6 +189,9 @@ func genSetup(r *emit.Rand, w *world) setupSpec {
 	}
 	s.CC = uint64(r.Intn(9))
 	s.Epoch = r.Chance(2, 5)
+	if r.Chance(2, 3) {
+		s.QueryRF = emit.Pick(r, rfChoices...)
+	}
 	return s
 }
 
@@ -218,7 +233,7 @@ func genProofs(r *emit.Rand, w *world, ctx sdk.Context, n int, allowOOR bool) (p
 	for vi, v := range w.vals {
 		var assigned []int64
 		if thr != nil {
-			assigned = datypes.ShardIndicesForValidator(v.op, int64(*thr), int64(n))
+			assigned = pureAssign(v.op, int64(*thr), int64(n))
 		}
 		all := make([]int64, n)
 		for i := range all {
@@ -372,13 +387,31 @@ func (w *world) directCase(s setupSpec, items []itemSpec) blockResult {
 	ctx := ctxAt(cc, w.h.Height, w.h.Time)
 	w.applySetup(ctx, s)
 	w.writeItems(ctx, items, "c09/item")
-	qn := 5
-	if len(items) > 0 {
-		qn = items[0].N
+	// the node serves queries before the block ends: for the shard counts about to be tallied, at
+	// the threshold of the moment — which differs from the tally's when the replication factor
+	// (QueryRF) or the bonded set changes in between
+	var qs []queryResult
+	seen := map[int]bool{}
+	ns := []int{5}
+	for _, it := range items {
+		ns = append(ns, it.N)
 	}
-	qt, qi := w.queryCase(ctx, qn)
+	for _, n := range ns {
+		if seen[n] || n > 255 {
+			continue
+		}
+		seen[n] = true
+		if s.QueryRF != "" {
+			w.setRF(ctx, s.QueryRF)
+			qt, qi := w.queryCase(ctx, n)
+			qs = append(qs, queryResult{qt, qi})
+			w.setRF(ctx, s.RF)
+		}
+		qt, qi := w.queryCase(ctx, n)
+		qs = append(qs, queryResult{qt, qi})
+	}
 	res := w.runBlock(ctx)
-	res.Query = append(res.Query, queryResult{qt, qi})
+	res.Query = qs
 	var ii []map[string]any
 	for _, it := range items {
 		ii = append(ii, it.info())
